@@ -146,6 +146,16 @@ def check(run, prog):
                            nontrivial=True)
                     if out.cls.name != cls_name:
                         ck.same("R3", gi.where, construct, "slicing keeps the signal type", False, found=out.cls.name)
+                    # the original keeps its own labels (a slice that moved the parent's centre frequency would make every later
+                    # slice of it wrong)
+                    labp = labels(ck, ck.evaluator(), z, "R3", gfreq.where, "labels of the original after slicing")
+                    if labp is not None:
+                        fp, _ = labp
+                        moved = [j for j in range(nchan) if sp.simplify(fp(j) - f0(j)) != 0]
+                        if moved:
+                            run.ob("R3", fsl.where, construct, "slicing leaves the labels of the original signal untouched", False,
+                                   found=f"label {moved[0]} of the original is now {sp.simplify(fp(moved[0]))}", expected=str(sp.simplify(f0(moved[0]))), nontrivial=True)
+                            z = make_signal(prog, cls_name, n=nsample, nchan=nchan, freq_align=al if nchan % 2 == 0 else "center")
                 # trailing-axis / combined selections keep time and frequency labels
                 if cls_name == "FullStokesSignal" or nchan in (4, 5):
                     pass
